@@ -97,30 +97,26 @@ def sameTy : Ty → Ty → Bool
   | .generic b1 p1, .generic b2 p2 => sameTy b1 b2 && sameList p1 p2
   | .tuple b1 p1, .tuple b2 p2 => sameTy b1 b2 && sameList p1 p2
   | .callable b1 p1, .callable b2 p2 => sameTy b1 b2 && sameList p1 p2
-  | .union as, .union bs => subAll as bs && subAllR bs as
-  | .literal a, .literal b => a == b
+  | .union as, .union bs => subAll as bs && bs.all (fun b => memR as b)
+  | .literal a, .literal b => decide (a = b)
   | .annotated t1 a1, .annotated t2 a2 => sameTy t1 t2 && a1 == a2
   | _, _ => false
+termination_by structural x => x
 def sameList : List Ty → List Ty → Bool
   | [], [] => true
   | a :: as, b :: bs => sameTy a b && sameList as bs
   | _, _ => false
+termination_by structural x => x
 /-- every member of the first list equals some member of the second -/
 def subAll : List Ty → List Ty → Bool
   | [], _ => true
-  | a :: as, bs => memSame a bs && subAll as bs
-/-- `a` equals some member of `bs` -/
-def memSame : Ty → List Ty → Bool
-  | _, [] => false
-  | a, b :: bs => sameTy a b || memSame a bs
-/-- every member of `bs` (first argument of the call) is matched by some member of `as`; the recursion is
-on `as`' members so that the definition is structural in the *second* type of `sameTy` as well -/
-def subAllR : List Ty → List Ty → Bool
-  | [], _ => true
-  | b :: bs, as => memSameR as b && subAllR bs as
-def memSameR : List Ty → Ty → Bool
+  | a :: as, bs => bs.any (fun b => sameTy a b) && subAll as bs
+termination_by structural x => x
+/-- some member of the first list equals `b` (recursion on the first list keeps `sameTy` structural) -/
+def memR : List Ty → Ty → Bool
   | [], _ => false
-  | a :: as, b => sameTy a b || memSameR as b
+  | a :: as, b => sameTy a b || memR as b
+termination_by structural x => x
 end
 
 /-- `t in seen` for the list of types kept so far -/
@@ -145,15 +141,18 @@ def noneTy : Ty := .named "builtins.NoneType"
 
 def isNoneTy (t : Ty) : Bool := t = .named "builtins.NoneType" || t = .named "NoneType"
 
-/-- `pytd_utils.JoinTypes` -/
-def joinTypes (ts : List Ty) : Ty :=
-  match dedupe [] (flatten ts) with
+/-- the tail of `JoinTypes`, on the deduplicated member list -/
+def joinCore (new : List Ty) : Ty :=
+  match new with
   | [t] => t
   | new =>
     if new.any (· = .any) then
       (if new.any isNoneTy then .union [.any, noneTy] else .any)
     else if new.isEmpty then .nothing
     else .union new
+
+/-- `pytd_utils.JoinTypes` -/
+def joinTypes (ts : List Ty) : Ty := joinCore (dedupe [] (flatten ts))
 
 /-! ### pytd -> abstract (convert.py) -/
 
@@ -181,6 +180,7 @@ def genericVal (b : Ty) (raw : List Ty) (ps : List AVar) : AVal :=
     match raw with
     | [.named c] => .clsObj (splitName c)
     | [.cls c] => .clsObj (splitName c)
+    | [.late c] => .clsObj (splitName c)
     | _ => .unsolvable
   else match arity (tyName b) with
     | some k => .pinst (splitName (tyName b)) (padParams k ps)
@@ -196,11 +196,12 @@ def toAbsVar : Ty → AVar
   | .cls n => [instOf n]
   | .generic b ps => [genericVal b ps (toAbsVars ps)]
   | .tuple _ ps => [.tup (toAbsVars ps)]
-  | .late _ => [.unsolvable]
+  | .late n => [instOf n]                  -- `_load_late_type`: the class it names (assumed to resolve)
   | .typeParam _ _ => [.unsolvable]
   | .callable _ _ => [.unsolvable]
   | .literal _ => [.unsolvable]
   | .annotated _ _ => [.unsolvable]
+termination_by structural x => x
 /-- `constant_to_value(AsInstance(t))` for one member of `UnpackUnion` -/
 def toAbsVal : Ty → AVal
   | .any => .unsolvable
@@ -210,18 +211,21 @@ def toAbsVal : Ty → AVal
   | .cls n => instOf n
   | .generic b ps => genericVal b ps (toAbsVars ps)
   | .tuple _ ps => .tup (toAbsVars ps)
-  | .late _ => .unsolvable
+  | .late n => instOf n
   | .typeParam _ _ => .unsolvable
   | .callable _ _ => .unsolvable
   | .literal _ => .unsolvable
   | .annotated _ _ => .unsolvable
+termination_by structural x => x
 /-- the loop over `UnpackUnion(cls)`: `NothingType` members add no binding -/
 def toAbsMembers : List Ty → AVar
   | [] => []
   | t :: ts => (if t = .nothing then [] else [toAbsVal t]) ++ toAbsMembers ts
+termination_by structural x => x
 def toAbsVars : List Ty → List AVar
   | [] => []
   | t :: ts => toAbsVar t :: toAbsVars ts
+termination_by structural x => x
 end
 
 /-! ### abstract -> pytd (output.py) -/
@@ -239,13 +243,16 @@ def toPytd : AVal → Ty
   | .func _ => .named "typing.Callable"
   | .unsolvable => .any
   | .empty => .nothing
+termination_by structural x => x
 /-- `_value_to_parameter_types`: per template item, `JoinTypes` of the item's visible values -/
 def toPytdVars : List AVar → List Ty
   | [] => []
   | v :: vs => joinTypes (toPytdList v) :: toPytdVars vs
+termination_by structural x => x
 def toPytdList : AVar → List Ty
   | [] => []
   | v :: vs => toPytd v :: toPytdList vs
+termination_by structural x => x
 end
 
 def AVal.isUnsolvable : AVal → Bool
@@ -294,6 +301,7 @@ def normGeneric (b : Ty) (raw : List Ty) (ps : List Ty) : Ty :=
     match raw with
     | [.named c] => .generic (.named "builtins.type") [.named c]
     | [.cls c] => .generic (.named "builtins.type") [.named c]
+    | [.late c] => .generic (.named "builtins.type") [.named c]
     | _ => .any
   else
     let args := match arity (tyName b) with
@@ -313,11 +321,12 @@ def normIn : Ty → Ty
   | .cls n => normName n
   | .generic b ps => normGeneric b ps (normIns ps)
   | .tuple _ ps => .tuple (.named "builtins.tuple") (normIns ps)
-  | .late _ => .any
+  | .late n => normName n
   | .typeParam _ _ => .any
   | .callable _ _ => .any
   | .literal _ => .any
   | .annotated _ _ => .any
+termination_by structural x => x
 /-- one union member: `toPytd (toAbsVal t)` -/
 def normVal : Ty → Ty
   | .any => .any
@@ -327,17 +336,20 @@ def normVal : Ty → Ty
   | .cls n => normName n
   | .generic b ps => normGeneric b ps (normIns ps)
   | .tuple _ ps => .tuple (.named "builtins.tuple") (normIns ps)
-  | .late _ => .any
+  | .late n => normName n
   | .typeParam _ _ => .any
   | .callable _ _ => .any
   | .literal _ => .any
   | .annotated _ _ => .any
+termination_by structural x => x
 def normMembers : List Ty → List Ty
   | [] => []
   | t :: ts => (if t = .nothing then [] else [normVal t]) ++ normMembers ts
+termination_by structural x => x
 def normIns : List Ty → List Ty
   | [] => []
   | t :: ts => normIn t :: normIns ts
+termination_by structural x => x
 end
 
 /-- `exportTop` on the list of member types -/
@@ -360,7 +372,7 @@ def normOut (t : Ty) : Ty := exportTys (topMembers t)
 /-! ### the fragment -/
 
 def isNameTy : Ty → Bool
-  | .named _ | .cls _ => true
+  | .named _ | .cls _ | .late _ => true
   | _ => false
 
 def isUnionTy : Ty → Bool
@@ -373,12 +385,14 @@ def inFragment : Ty → Bool
   | .nothing => true
   | .named n => n ≠ "builtins.type" && n ≠ "builtins.property" && (rpartDot n.toList).isSome
   | .cls n => n ≠ "builtins.type" && n ≠ "builtins.property" && (rpartDot n.toList).isSome
+  | .late n => n ≠ "builtins.type" && n ≠ "builtins.property" && (rpartDot n.toList).isSome
   | .generic b ps =>
     isNameTy b &&
     (if tyName b = "builtins.type" then
        (match ps with
         | [.named c] => (rpartDot c.toList).isSome
         | [.cls c] => (rpartDot c.toList).isSome
+        | [.late c] => (rpartDot c.toList).isSome
         | [.any] => true
         | _ => false)
      else
@@ -387,18 +401,20 @@ def inFragment : Ty → Bool
         | none => false) && inFragmentL ps)
   | .tuple b ps => isNameTy b && tyName b == "builtins.tuple" && inFragmentL ps
   | .union ts => inFragmentM ts
-  | .late _ => false
   | .typeParam _ _ => false
   | .callable _ _ => false
   | .literal _ => false
   | .annotated _ _ => false
+termination_by structural x => x
 def inFragmentL : List Ty → Bool
   | [] => true
   | t :: ts => inFragment t && inFragmentL ts
+termination_by structural x => x
 /-- union members: in the fragment and not themselves unions (unions are flat) -/
 def inFragmentM : List Ty → Bool
   | [] => true
   | t :: ts => !isUnionTy t && inFragment t && inFragmentM ts
+termination_by structural x => x
 end
 
 def InFragment (t : Ty) : Prop := inFragment t = true
@@ -416,7 +432,7 @@ def skel : Ty → Ty
   | .nothing => .nothing
   | .named n => .named n
   | .cls n => .named n
-  | .late n => .late n
+  | .late n => .named n
   | .typeParam n s => .typeParam n s
   | .generic b ps => .generic (skel b) (skels ps)
   | .tuple b ps => .tuple (skel b) (skels ps)
@@ -424,14 +440,16 @@ def skel : Ty → Ty
   | .union _ => .union []
   | .literal v => .literal v
   | .annotated t as => .annotated (skel t) as
+termination_by structural x => x
 def skels : List Ty → List Ty
   | [] => []
   | t :: ts => skel t :: skels ts
+termination_by structural x => x
 end
 
 def nodupTys : List Ty → Bool
   | [] => true
-  | t :: ts => !ts.contains t && nodupTys ts
+  | t :: ts => !ts.any (fun x => decide (x = t)) && nodupTys ts
 
 mutual
 def emitted : Ty → Bool
@@ -439,12 +457,14 @@ def emitted : Ty → Bool
   | .nothing => false
   | .named n => n ≠ "builtins.type" && n ≠ "builtins.property" && (arity n).isNone
   | .cls n => n ≠ "builtins.type" && n ≠ "builtins.property" && (arity n).isNone
+  | .late n => n ≠ "builtins.type" && n ≠ "builtins.property" && (arity n).isNone
   | .generic b ps =>
     isNameTy b &&
     (if tyName b = "builtins.type" then
        (match ps with
         | [.named _] => true
         | [.cls _] => true
+        | [.late _] => true
         | _ => false)
      else
        (match arity (tyName b) with
@@ -452,19 +472,21 @@ def emitted : Ty → Bool
         | none => false) && emittedP ps)
   | .tuple b ps => isNameTy b && tyName b == "builtins.tuple" && emittedP ps
   | .union ts => decide (2 ≤ ts.length) && emittedM ts && nodupTys (skels ts)
-  | .late _ => false
   | .typeParam _ _ => false
   | .callable _ _ => false
   | .literal _ => false
   | .annotated _ _ => false
+termination_by structural x => x
 /-- parameters: emitted, or `nothing` (the empty container) -/
 def emittedP : List Ty → Bool
   | [] => true
   | t :: ts => (t = .nothing || emitted t) && emittedP ts
+termination_by structural x => x
 /-- union members: emitted, not unions, not `Any` -/
 def emittedM : List Ty → Bool
   | [] => true
   | t :: ts => !isUnionTy t && t ≠ .any && emitted t && emittedM ts
+termination_by structural x => x
 end
 
 def Emitted (t : Ty) : Prop := emitted t = true
@@ -473,9 +495,10 @@ instance (t : Ty) : Decidable (Emitted t) := by unfold Emitted; infer_instance
 /-! ### transports of the upstream unit -/
 
 mutual
-/-- `ClassType`/`NamedType` read as `NamedType` (`ClassTypeToNamedType`) -/
+/-- `ClassType`/`LateType`/`NamedType` read as `NamedType` (`ClassTypeToNamedType`) -/
 def strip : Ty → Ty
   | .cls n => .named n
+  | .late n => .named n
   | .generic b ps => .generic (strip b) (strips ps)
   | .tuple b ps => .tuple (strip b) (strips ps)
   | .callable b ps => .callable (strip b) (strips ps)
@@ -484,12 +507,13 @@ def strip : Ty → Ty
   | .any => .any
   | .nothing => .nothing
   | .named n => .named n
-  | .late n => .late n
   | .typeParam n s => .typeParam n s
   | .literal v => .literal v
+termination_by structural x => x
 def strips : List Ty → List Ty
   | [] => []
   | t :: ts => strip t :: strips ts
+termination_by structural x => x
 end
 
 mutual
@@ -507,9 +531,40 @@ def resolve : Ty → Ty
   | .late n => .late n
   | .typeParam n s => .typeParam n s
   | .literal v => .literal v
+termination_by structural x => x
 def resolves : List Ty → List Ty
   | [] => []
   | t :: ts => resolve t :: resolves ts
+termination_by structural x => x
+end
+
+/-- `ClassTypeToLateType(ignore=[module + ".", "builtins.", "typing."])` keeps a `ClassType` whose name is
+one of the prefixes followed by a dot-free name -/
+def keepsClassType (m : String) (n : String) : Bool :=
+  [m ++ ".", "builtins.", "typing."].any fun p =>
+    p.toList.isPrefixOf n.toList && !(n.toList.drop p.toList.length).contains '.'
+
+mutual
+/-- what a pickled unit holds after `PrepareForExport`: references to *nested* classes (and to other
+modules) are `LateType`s, resolved by `convert` on demand -/
+def lateTy (m : String) : Ty → Ty
+  | .cls n => if keepsClassType m n then .cls n else .late n
+  | .generic b ps => .generic (lateTy m b) (lateTys m ps)
+  | .tuple b ps => .tuple (lateTy m b) (lateTys m ps)
+  | .callable b ps => .callable (lateTy m b) (lateTys m ps)
+  | .union ts => .union (lateTys m ts)
+  | .annotated t as => .annotated (lateTy m t) as
+  | .any => .any
+  | .nothing => .nothing
+  | .named n => .named n
+  | .late n => .late n
+  | .typeParam n s => .typeParam n s
+  | .literal v => .literal v
+termination_by structural x => x
+def lateTys (m : String) : List Ty → List Ty
+  | [] => []
+  | t :: ts => lateTy m t :: lateTys m ts
+termination_by structural x => x
 end
 
 def isNoneName (t : Ty) : Bool := t = .named "builtins.NoneType"
@@ -520,7 +575,38 @@ def noneLastL (ts : List Ty) : List Ty := ts.filter (fun t => !isNoneName t) ++ 
 /-- syntactic dedupe, first occurrence kept -/
 def dedupSyn : List Ty → List Ty → List Ty
   | _, [] => []
-  | seen, t :: ts => if seen.contains t then dedupSyn seen ts else t :: dedupSyn (t :: seen) ts
+  | seen, t :: ts =>
+    if seen.any (fun x => decide (x = t)) then dedupSyn seen ts else t :: dedupSyn (t :: seen) ts
+
+/-- a reference to `NoneType`, whatever the node class -/
+def isNoneRef : Ty → Bool
+  | .named n | .cls n | .late n => n == "builtins.NoneType"
+  | _ => false
+
+def noneLastR (ts : List Ty) : List Ty := ts.filter (fun t => !isNoneRef t) ++ ts.filter isNoneRef
+
+mutual
+/-- the observation modulo which text and pickle agree *syntactically*: in every union `None` is moved
+last (nothing else moves) -/
+def nl : Ty → Ty
+  | .union ts => .union (noneLastR (nls ts))
+  | .generic b ps => .generic b (nls ps)
+  | .tuple b ps => .tuple b (nls ps)
+  | .callable b ps => .callable b (nls ps)
+  | .annotated t as => .annotated (nl t) as
+  | .any => .any
+  | .nothing => .nothing
+  | .named n => .named n
+  | .cls n => .cls n
+  | .late n => .late n
+  | .typeParam n s => .typeParam n s
+  | .literal v => .literal v
+termination_by structural x => x
+def nls : List Ty → List Ty
+  | [] => []
+  | t :: ts => nl t :: nls ts
+termination_by structural x => x
+end
 
 mutual
 /-- what print -> parse does to a type (the part of C05's `norm` that concerns the fragment): names lose
@@ -528,6 +614,7 @@ their class pointer, union members are normalised, duplicates merged, `None` mov
 is that member -/
 def normText : Ty → Ty
   | .cls n => .named n
+  | .late n => .named n
   | .generic b ps => .generic (normText b) (normTexts ps)
   | .tuple b ps => .tuple (normText b) (normTexts ps)
   | .callable b ps => .callable (normText b) (normTexts ps)
@@ -539,12 +626,13 @@ def normText : Ty → Ty
   | .any => .any
   | .nothing => .nothing
   | .named n => .named n
-  | .late n => .late n
   | .typeParam n s => .typeParam n s
   | .literal v => .literal v
+termination_by structural x => x
 def normTexts : List Ty → List Ty
   | [] => []
   | t :: ts => normText t :: normTexts ts
+termination_by structural x => x
 end
 
 /-! ### maps over a unit -/
@@ -565,9 +653,11 @@ def mapClass (f : Ty → Ty) : Class → Class
   | .mk name kw bases methods constants classes decorators slots template =>
     .mk name kw (bases.map f) (methods.map (mapFunc f)) (constants.map (mapConst f)) (mapClasses f classes)
       decorators slots template
+termination_by structural x => x
 def mapClasses (f : Ty → Ty) : List Class → List Class
   | [] => []
   | c :: cs => mapClass f c :: mapClasses f cs
+termination_by structural x => x
 end
 
 def mapUnit (f : Ty → Ty) (u : TUnit) : TUnit :=
@@ -576,12 +666,13 @@ def mapUnit (f : Ty → Ty) (u : TUnit) : TUnit :=
 
 /-- The two ways the upstream unit reaches the downstream loader.  Only the specifications are used:
 `text_spec` is what C05 provides (print then parse then resolve = `normText` on every type, names
-re-resolved), `pickle_spec` what C12 provides (decode ∘ encode = id, class pointers re-linked). -/
+re-resolved), `pickle_spec` what C12 provides (decode ∘ encode = id on the exported unit, in which
+`PrepareForExport` has turned references to nested classes into `LateType`s; class pointers re-linked). -/
 structure Transports where
   viaText : TUnit → TUnit
   viaPickle : TUnit → TUnit
   text_spec : ∀ u, viaText u = mapUnit (fun t => resolve (normText t)) u
-  pickle_spec : ∀ u, viaPickle u = mapUnit resolve u
+  pickle_spec : ∀ u, viaPickle u = mapUnit (fun t => lateTy u.name (resolve t)) u
 
 /-! ### what the downstream module reads -/
 
@@ -643,9 +734,11 @@ def deriveClass (path : List String) : Class → List Read
       ++ constants.map (fun c => Read.instAttr p c.name)
       ++ (methods.filter (fun m => (retOf m).isSome)).map (fun m => Read.methCall p m.name)
       ++ deriveClasses p classes
+termination_by structural x => x
 def deriveClasses (path : List String) : List Class → List Read
   | [] => []
   | c :: cs => deriveClass path c ++ deriveClasses path cs
+termination_by structural x => x
 end
 
 /-- the downstream module derived from the upstream unit: it re-exports every name -/
@@ -663,9 +756,11 @@ def classRefs : Ty → List String
   | .union ts => classRefsL ts
   | .annotated t _ => classRefs t
   | _ => []
+termination_by structural x => x
 def classRefsL : List Ty → List String
   | [] => []
   | t :: ts => classRefs t ++ classRefsL ts
+termination_by structural x => x
 end
 
 end PytypeModel.Pytd.AbsConvert
